@@ -68,6 +68,20 @@ Proof.
 Qed.
 (* declining an invitation does not make the user a member (membership is unchanged), so nothing further
    reaches them *)
+(* a user who disconnected is a member of nothing: whoever gets its ID later inherits no chat *)
+Theorem departed_is_member_of_nothing s who chat ms :
+  members (disconnect s who) chat = Some ms -> ~ In who ms.
+Proof.
+  unfold members, disconnect. cbn [cs_chats]. rewrite lookup_fmap. destruct (cs_chats s !! chat) as [l|]; cbn; [|discriminate].
+  intros [= <-]. apply remove_id_not_in.
+Qed.
+Theorem disconnect_keeps_other_members s who chat ms x :
+  members s chat = Some ms -> x <> who -> In x ms ->
+  exists ms', members (disconnect s who) chat = Some ms' /\ In x ms'.
+Proof.
+  unfold members, disconnect. cbn [cs_chats]. intros H Hne Hin. rewrite lookup_fmap, H. cbn. eexists. split; [reflexivity|].
+  unfold remove_id. apply filter_In. split; [exact Hin|]. apply negb_true_iff. now apply N.eqb_neq.
+Qed.
 Theorem decline_changes_no_membership s who chat ms :
   members s chat = Some ms -> recipients (decline s who chat) = ms.
 Proof. intros Hm. unfold decline. rewrite Hm. by apply recipients_map. Qed.
